@@ -352,6 +352,29 @@ REJECT = [
     ('zero Cp bare, no default unit', None,
      'T_ref: 300 K\nCp_data:\n    - [300 K, 0]\n'),
 ]
+# systematic: a full units block with exactly ONE kind left out, and a bare
+# value of exactly that kind (every other kind present and dimensionally
+# akin: entropy next to heat capacity, enthalpy next to both)
+_FULL = {'molar enthalpy': 'kJ/mol', 'molar entropy': 'J/(mol K)',
+         'molar heat capacity': 'cal/(mol K)', 'temperature': 'K'}
+_BARE = {
+    'molar enthalpy': 'T_ref: 298.15\nH_ref: 12.5\nS_ref: 3.25\n',
+    'molar entropy': 'T_ref: 298.15\nH_ref: 12.5\nS_ref: 3.25\n',
+    'molar heat capacity': 'T_ref: 298.15\nS_ref: 3.25\nCp_data:\n'
+                           '    - [300, 5.0]\n    - [400, 6.0]\n'
+                           'range: [298.15, 400]\n',
+    'temperature': 'T_ref: 298.15\nH_ref: 12.5\n',
+}
+for _kind in _FULL:
+    for _alt in ('kJ/mol', 'cal/(mol K)'):
+        _blk = dict((k, v) for k, v in _FULL.items() if k != _kind)
+        if _kind != 'temperature':
+            # the other entries written in units of the same family
+            _blk = dict((k, (_alt if k != 'temperature' and
+                             ('K' in _alt) == ('K' in v) else v))
+                        for k, v in _blk.items())
+        REJECT.append(('bare %s, block lacks exactly that kind (%s)'
+                       % (_kind, _alt), _blk, _BARE[_kind]))
 
 
 def check_reject(ctx, idx):
